@@ -35,7 +35,8 @@ type EventEmitter struct {
 
 	muEmitters sync.Mutex
 
-	cglobal <-chan Event
+	cglobal    <-chan Event
+	cglobalCtx context.Context
 
 	emitter event.Emitter
 	cancels []context.CancelFunc
@@ -209,7 +210,11 @@ func (e *EventEmitter) handleSubscriber(ctx context.Context, sub event.Subscript
 // GlobalChannel returns a glocal channel that receives emitted events
 func (e *EventEmitter) GlobalChannel(ctx context.Context) (cc <-chan Event) {
 	e.muEmitters.Lock()
-	if e.cglobal == nil {
+
+	// the global channel lives as long as the context it was created under: once
+	// that context has ended (or after UnsubscribeAll) the channel is closed, and
+	// a later caller must get a new one, not the closed one
+	if e.cglobal == nil || e.cglobalCtx.Err() != nil {
 		bus := e.getBus()
 
 		sub, err := bus.Subscribe(event.WildcardSubscription)
@@ -224,6 +229,7 @@ func (e *EventEmitter) GlobalChannel(ctx context.Context) (cc <-chan Event) {
 		}
 		e.cancels = append(e.cancels, cancel)
 
+		e.cglobalCtx = ctx
 		e.cglobal = e.handleSubscriber(ctx, sub)
 	}
 
